@@ -1453,8 +1453,11 @@ func (d *Data) storeAndUpdate(ctx *datastore.VersionedCtx, keyStr string, newDat
 		for field := range newData {
 			mdb.fields[field]++
 			if strings.HasSuffix(field, "_time") {
-				rootField := field[:len(field)-5]
-				mdb.fieldTimes[rootField] = newData[field].(string)
+				// a client may set <field>_time itself, and not necessarily to a string
+				if timeStr, ok := newData[field].(string); ok {
+					rootField := field[:len(field)-5]
+					mdb.fieldTimes[rootField] = timeStr
+				}
 			}
 		}
 		mdb.addBodyID(bodyid)
